@@ -32,6 +32,7 @@ type ConcSpec struct {
 	TxnsPer  int     `json:"txns_per_worker"`
 	Profile  string  `json:"profile"` // mixed | rmw | skew | reader | abandon
 	Yield    int     `json:"yield"`   // 0..3: how often workers yield/sleep between calls
+	Reopen   bool    `json:"reopen"`  // reopen the directory right after Close and read everything
 }
 
 type ConcResult struct {
@@ -43,6 +44,7 @@ type ConcResult struct {
 	DBFiles   int    `json:"db_files"`
 	Corrupt   int64  `json:"corrupt_values"`
 	Watchdog  string `json:"watchdog,omitempty"`
+	WalLeft   int    `json:"wal_left"`
 	Profile   string `json:"profile"`
 }
 
@@ -56,6 +58,14 @@ func genConc(r *rand.Rand, id string, profile string) ConcSpec {
 	}
 	if s.Profile == "reader" {
 		s.TxnsPer += 10
+	}
+	if s.Profile == "stress" {
+		// writers faster than the flusher: rotation on every commit, queue 0..2, many readers beginning
+		s.Cfg.MemtableByteThreshold = 1
+		s.Cfg.ImmutableBuffer = pick(r, 0, 0, 1, 2)
+		s.Workers = 3 + r.Intn(3)
+		s.TxnsPer = 8 + r.Intn(10)
+		s.Reopen = true
 	}
 	return s
 }
@@ -100,6 +110,9 @@ func runConc(s ConcSpec, watchdog time.Duration) (*rec.Trace, ConcResult) {
 				kind := s.Profile
 				if kind == "mixed" {
 					kind = pick(r, "rmw", "skew", "blind", "scan", "abandon", "rmw", "reader", "wr")
+				}
+				if kind == "stress" {
+					kind = pick(r, "blind", "blind", "rmw", "scan", "scan", "scan")
 				}
 				if kind == "rmw" && r.Intn(4) == 0 {
 					kind = "wr"
